@@ -197,7 +197,7 @@ func (e *GError) Error() string {
 
 // Unwrap is for unwrapping errors to get to the source.
 func (e *GError) Unwrap() error {
-	if e.factoryRef != nil {
+	if e != nil && e.factoryRef != nil {
 		return e.factoryRef
 	}
 	return nil
@@ -205,6 +205,10 @@ func (e *GError) Unwrap() error {
 
 // Is implements the required errors.Is interface.
 func (e *GError) Is(err error) bool {
+	if e == nil {
+		// a typed-nil *GError was not derived from anything (errors.Is has compared it already).
+		return false
+	}
 	if e.isFactory && e == ExtractFactoryReference(err) {
 		return true
 	}
@@ -219,7 +223,7 @@ func (e *GError) Is(err error) bool {
 		}
 	}
 	gerr, ok := err.(Error)
-	if !ok {
+	if !ok || isNilPointer(gerr) {
 		return false
 	}
 	if unwrapped := gerr.Unwrap(); unwrapped != nil {
@@ -244,7 +248,7 @@ func (e *GError) _embededGError() *GError {
 // ExtractFactoryReference pulls out a factory reference if one exists or returns nil.
 func ExtractFactoryReference(err error) Factory {
 	gerr, ok := err.(Error)
-	if !ok {
+	if !ok || isNilPointer(gerr) {
 		return nil
 	}
 	embedded := gerr._embededGError()
@@ -252,4 +256,11 @@ func ExtractFactoryReference(err error) Factory {
 		return embedded
 	}
 	return embedded.factoryRef
+}
+
+// isNilPointer reports whether err holds a nil pointer (a typed nil such as (*GError)(nil) or a
+// nil pointer to an extension type): it implements Error, but its methods cannot be called.
+func isNilPointer(err Error) bool {
+	v := reflect.ValueOf(err)
+	return v.Kind() == reflect.Pointer && v.IsNil()
 }
